@@ -85,8 +85,9 @@ SERIES = (
 def _check_gvii(case):
     ivs, si = case
     E = [(a, b, "x") for a, b in ivs]
-    t = IT("t", E, 0, 4)
-    data = list(SERIES[si]) if si >= 0 else [(v, k) for k, v in enumerate(sorted(D.ULP))]  # -1: samples on the ulp-neighbour grid
+    t = IT("t", E, 0, 4) if si != -2 else IT("t", E, D.BIG[0], D.BIG[-1])
+    # -1: samples on the ulp-neighbour grid; -2: intervals and samples on the far-from-zero grid
+    data = list(SERIES[si]) if si >= 0 else [(v, k) for k, v in enumerate(sorted(D.ULP) if si == -1 else D.BIG)]
     st, r, _ = call(t.getValuesInIntervals, list(data))
     if st == "exc":
         return 1, "X", None, [Viol("getValuesInIntervals-raised", f"{E} {data}: {r!r}")]
@@ -347,10 +348,17 @@ def parts(tier):
             if a < b and c < d:
                 for incl in (False, True):
                     yield (a, b, c, d, incl, 0, 0)
+        for a, b, c, d in itertools.product(D.BIG[:6], repeat=4):
+            if a < b and c < d:
+                for incl in (False, True):
+                    for pct, thr in ((0, 0), (0.5, 0), (0, 2.0 ** -7), (0, 0.5)):
+                        yield (a, b, c, d, incl, pct, thr)
 
     def gen_gvii_ulp():
         for s in D.interval_sets(U, 2):
             yield (s, -1)
+        for s in D.interval_sets(D.BIG, 2):
+            yield (s, -2)
 
     def gen_inv():
         for s in sets:
@@ -379,9 +387,10 @@ def parts(tier):
         InputPart("intervalOverlapCheck", gen_ovl, _check_overlap,
                   rule="all interval pairs on a 5-grid x boundaryInclusive x 8 threshold settings; non-trivial = distinct order types x settings", bounds={}),
         InputPart("intervalOverlapCheck-ulp", gen_ovl_ulp, _check_overlap,
-                  rule="all interval pairs on the ulp-neighbour grid x boundaryInclusive: an overlap of one ulp is an overlap, a gap of one ulp is not a shared boundary", bounds={}),
+                  rule="all interval pairs on the ulp-neighbour grid x boundaryInclusive (an overlap of one ulp is an overlap, a gap of one ulp is not a "
+                       "shared boundary) and on the far-from-zero grid 2**40 + {0, 2**-7, 0.25, 0.5, 1, 2} x 4 threshold settings", bounds={}),
         InputPart("getValuesInIntervals-ulp", gen_gvii_ulp, _check_gvii,
-                  rule="interval sets and samples on the ulp-neighbour grid: start <= t <= end decided exactly", bounds={}),
+                  rule="interval sets and samples on the ulp-neighbour grid and on the far-from-zero grid: start <= t <= end decided exactly", bounds={}),
         InputPart("invertIntervalList", gen_inv, _check_invert,
                   rule="all interval lists (<=3) x min in {None,0,1,-1} x max in {None,4,3,5}: complement within the bounds", bounds={}),
         InputPart("equality", gen_eq, _check_eq,
